@@ -21,7 +21,6 @@ pub enum B {
 pub fn roundtrip<const OL: usize, const NL: usize>(kind: B, mb: usize, streaming: bool) {
     let old: [u8; OL] = kani::any();
     let new: [u8; NL] = kani::any();
-    let bs: usize = kani::any();
     let i: usize = kani::any();
     let b = ZbsdiffBuilder::new(old.to_vec(), new.to_vec()).with_max_diff_block_size(mb);
     let built = match kind {
@@ -56,7 +55,7 @@ pub fn roundtrip<const OL: usize, const NL: usize>(kind: B, mb: usize, streaming
     }
     kani::cover!(out.is_ok(), "patch built and applied");
     if streaming {
-        let p = ZbsdiffPatcher::new(Cursor::new(&old[..]), NL).with_buffer_size(bs);
+        let p = ZbsdiffPatcher::new(Cursor::new(&old[..]), NL).with_buffer_size(1) /* clamped to the 1 KiB minimum; a symbolic size makes the patcher's scratch Vec a symbolic-size heap object */;
         let out2 = p.apply_patch_from_data(&patch);
         match &out2 {
             Ok(v) => {
@@ -85,10 +84,73 @@ macro_rules! c16_rt {
     };
 }
 
+// Only the simple builder is registered: build_chunked_patch on symbolic bytes does not finish (|old|=|new|=1,
+// max_diff_block_size 1: CBMC out of memory after 645 s; |old|=2,|new|=1: > 600 s in symex) because the match
+// length, hence every Vec length and the control-entry count, is data dependent and each `?` drags in the
+// recursive binrw::Error drop glue.  The suffix-array builder (divsufsort) was not attempted for the same reason.
 // @family prop=C16 tier=quick timeout=600 role=build-apply-roundtrip
-// @bounds |old| and |new| concrete per harness (name: o<|old|>_n<|new|>), every byte symbolic; max_diff_block_size concrete (mb<k>); streaming patcher buffer size symbolic (clamped to >= 1024 by with_buffer_size); observed byte index symbolic
-// @encodes cascette_formats::zbsdiff::ZbsdiffBuilder::build_simple_patch, cascette_formats::zbsdiff::ZbsdiffBuilder::build_chunked_patch, cascette_formats::zbsdiff::ZbsdiffBuilder::find_matching_chunk, cascette_formats::zbsdiff::ZbsdiffBuilder::find_extra_chunk_size, cascette_formats::zbsdiff::ZbsdiffBuilder::build_patch_internal, cascette_formats::zbsdiff::ControlBlock::with_entries, cascette_formats::zbsdiff::ControlBlock::to_compressed, cascette_formats::zbsdiff::ControlBlock::from_compressed, cascette_formats::zbsdiff::utils::offtin, cascette_formats::zbsdiff::utils::offtout, cascette_formats::zbsdiff::ZbsdiffHeader::validate, cascette_formats::zbsdiff::apply_patch_memory, cascette_formats::zbsdiff::patcher::apply_patch_with_data, cascette_formats::zbsdiff::ZbsdiffPatcher::apply_patch_from_data, cascette_formats::zbsdiff::ZbsdiffPatcher::apply_patch
+// @bounds |old| and |new| concrete per harness (name: o<|old|>_n<|new|>), every byte symbolic; max_diff_block_size concrete (mb<k>); streaming patcher buffer = the 1 KiB minimum (with_buffer_size clamps; splitting a block across buffers needs > 1024 bytes: outside); observed byte index symbolic
+// @encodes cascette_formats::zbsdiff::ZbsdiffBuilder::build_simple_patch, cascette_formats::zbsdiff::ZbsdiffBuilder::build_patch_internal, cascette_formats::zbsdiff::ControlBlock::with_entries, cascette_formats::zbsdiff::ControlBlock::to_compressed, cascette_formats::zbsdiff::ControlBlock::from_compressed, cascette_formats::zbsdiff::utils::offtin, cascette_formats::zbsdiff::utils::offtout, cascette_formats::zbsdiff::ZbsdiffHeader::validate, cascette_formats::zbsdiff::apply_patch_memory, cascette_formats::zbsdiff::patcher::apply_patch_with_data, cascette_formats::zbsdiff::ZbsdiffPatcher::apply_patch_from_data, cascette_formats::zbsdiff::ZbsdiffPatcher::apply_patch
 // @assumes compress_zlib / decompress_zlib = identity copy (flate2 round-trips; 4-line wrappers); fmt::format off; CBMC field sensitivity for heap objects <= 1024 bytes
 // @catches diff byte computed with the wrong operand order, extra bytes dropped or duplicated, control sizes swapped, seek applied to the wrong position, header sizes swapped / output_size wrong, sign-magnitude encoding broken, memory and streaming patcher disagreeing
 c16_rt!(c16_simple_o0_n0, Simple, 0, 0, 3, true, 40);
+c16_rt!(c16_simple_o0_n1, Simple, 0, 1, 3, true, 40);
+c16_rt!(c16_simple_o1_n0, Simple, 1, 0, 3, true, 40);
+c16_rt!(c16_simple_o0_n3, Simple, 0, 3, 3, true, 40);
+c16_rt!(c16_simple_o3_n0, Simple, 3, 0, 3, true, 40);
+c16_rt!(c16_simple_o1_n1, Simple, 1, 1, 3, true, 40);
+c16_rt!(c16_simple_o2_n3, Simple, 2, 3, 3, true, 40);
+c16_rt!(c16_simple_o3_n2, Simple, 3, 2, 3, true, 40);
+c16_rt!(c16_simple_o3_n3, Simple, 3, 3, 3, true, 40);
 // @end
+
+// ---- bsdiff sign-magnitude integers (kernel level, through the cfg(kani) shim) -----------------------
+// ControlBlock::{to_compressed, from_compressed} with a symbolic entry do not finish (symex 211 s + solver
+// > 190 s, killed at 400 s: every `?` carries the recursive binrw::Error drop glue), so the integer codec
+// is checked directly; the simple-builder round trips above run it on concrete-shaped entries.
+use cascette_formats::zbsdiff::verif_utils as zu;
+
+fn sm_bytes(v: i64) -> [u8; 8] {
+    // specification: 63-bit magnitude little-endian, bit 63 = sign
+    let mag = v.unsigned_abs() & 0x7FFF_FFFF_FFFF_FFFF;
+    (mag | if v < 0 { 1u64 << 63 } else { 0 }).to_le_bytes()
+}
+
+// @harness prop=C16 tier=quick timeout=300 role=sign-magnitude-codec
+// @bounds every i64 except i64::MIN for offtout; every 8-byte pattern for offtin (incl. negative zero)
+// @encodes cascette_formats::zbsdiff::utils::offtout, cascette_formats::zbsdiff::utils::offtin
+// @catches two's complement instead of sign-magnitude, sign bit in the wrong byte / not masked off the magnitude, big-endian
+#[kani::proof]
+#[kani::unwind(10)]
+fn c16_sign_magnitude_codec() {
+    let v: i64 = kani::any();
+    let raw: [u8; 8] = kani::any();
+    kani::assume(v != i64::MIN);
+    let b = zu::offtout(v);
+    let want = sm_bytes(v);
+    let mut k = 0;
+    while k < 8 {
+        assert!(b[k] == want[k], "offtout is not 63-bit magnitude little-endian + sign bit 63");
+        k += 1;
+    }
+    assert!(zu::offtin(b) == v, "offtin(offtout(v)) != v");
+    // decoder on arbitrary bytes
+    let u = u64::from_le_bytes(raw);
+    let mag = (u & 0x7FFF_FFFF_FFFF_FFFF) as i64;
+    let want_v = if u >> 63 == 1 { -mag } else { mag };
+    assert!(zu::offtin(raw) == want_v, "offtin differs from the sign-magnitude specification");
+    kani::cover!(v < 0, "negative value");
+    kani::cover!(u == 1u64 << 63, "negative zero");
+}
+
+// @harness prop=C16 tier=quick timeout=300 role=kf-offtout-i64-min
+// @bounds every i64 including i64::MIN (reachable through the public ControlEntry::new(.., seek_offset) -> ControlBlock::with_entries -> to_compressed, which validates sizes but not the seek offset)
+// @encodes cascette_formats::zbsdiff::utils::offtout, cascette_formats::zbsdiff::utils::offtin
+// @catches EXPECTED TO FAIL on the unchanged tree (genuine defect): 'attempt to negate with overflow' in offtout (debug) / assertion 'KF: offtout(i64::MIN) ...' (release: written as negative zero, read back as 0)
+#[kani::proof]
+#[kani::unwind(10)]
+fn c16_kf_offtout_i64_min() {
+    let v: i64 = kani::any();
+    let b = zu::offtout(v);
+    assert!(zu::offtin(b) == v, "KF: offtout(i64::MIN) negates with overflow (panic in debug builds; in release builds the value is written as negative zero and read back as 0)");
+}
